@@ -22,6 +22,9 @@ type SolveResult struct {
 
 var solverSem = make(chan struct{}, 16)
 
+// wallFactor: wall-clock backstop as a multiple of the CPU-time limit.
+const wallFactor = 6
+
 type solverSpec struct {
 	name string
 	argv func(file string, timeoutS int) []string
@@ -47,10 +50,15 @@ func runSolver(ctx context.Context, sp solverSpec, file string, timeoutS int) So
 	if ctx.Err() != nil {
 		return SolveResult{Status: "cancelled", Solver: sp.name}
 	}
-	argv := sp.argv(file, timeoutS)
-	cctx, cancel := context.WithTimeout(ctx, time.Duration(timeoutS+2)*time.Second)
+	// The limit is CPU time of the solver process (ulimit -t), so that a loaded
+	// machine slows a check down instead of turning proofs into timeouts; the
+	// wall-clock limits (the solver's own and the context's) are a multiple of
+	// it and only a backstop.
+	argv := sp.argv(file, timeoutS*wallFactor)
+	cctx, cancel := context.WithTimeout(ctx, time.Duration(timeoutS*wallFactor+5)*time.Second)
 	defer cancel()
-	cmd := exec.CommandContext(cctx, argv[0], argv[1:]...)
+	shargs := []string{"-c", fmt.Sprintf("ulimit -t %d; exec \"$@\"", timeoutS+1), "sh"}
+	cmd := exec.CommandContext(cctx, "/bin/sh", append(shargs, argv...)...)
 	var out, errb bytes.Buffer
 	cmd.Stdout = &out
 	cmd.Stderr = &errb
@@ -70,7 +78,8 @@ func runSolver(ctx context.Context, sp solverSpec, file string, timeoutS int) So
 	case "timeout":
 		res.Status = "timeout"
 	default:
-		if cctx.Err() != nil {
+		if cctx.Err() != nil || cmd.ProcessState == nil || !cmd.ProcessState.Exited() {
+			// killed: by the context or by the CPU-time limit (SIGXCPU/SIGKILL)
 			res.Status = "timeout"
 		} else {
 			res.Status = "error"
